@@ -189,6 +189,7 @@ def windows_of(events):
 def run_impl(case):
     """Execute the case on the real code; the integers the model's run_case must produce."""
     rig = c06_mem.Rig(case['plan'])
+    rig.early = bool(case.get('early'))
     out = []
     for ev in case['events']:
         out += rig.do(ev)
@@ -199,8 +200,9 @@ def run_impl(case):
 
 
 # ------------------------------------------------------------------ generation (online: needs the log length)
-def gen_case(rng, style):
-    """style: 'clean' (no refusals, no forged packets), 'faulty' (everything)."""
+def gen_case(rng, style, early=False):
+    """style: 'clean' (no refusals, no forged packets), 'faulty' (everything).  early: the reply to a request packet sent by
+    the caller's thread is dispatched before the call returns."""
     nid = rng.choice([1, 1, 2, 3])
     ids = rng.sample(IDS, nid)
     plan = []
@@ -208,6 +210,7 @@ def gen_case(rng, style):
         p = rng.choice([0.0, 0.05, 0.15])
         plan = [rng.randrange(1, 256) if rng.random() < p else 0 for _ in range(60)]
     rig = c06_mem.Rig(plan)
+    rig.early = early
     events = []
     delivered = set()
     steps = rng.randrange(5, 34)
@@ -215,6 +218,7 @@ def gen_case(rng, style):
     def do(ev):
         events.append(ev)
         rig.do(ev)
+        delivered.update(rig.early_done)
 
     for _ in range(steps):
         undel = [k for k in range(len(rig.log)) if k not in delivered]
@@ -252,13 +256,13 @@ def gen_case(rng, style):
             break
         delivered.add(undel[0])
         do(['D', undel[0]])
-    return {'plan': plan, 'events': events, 'windows': windows_of(events)}
+    return {'plan': plan, 'events': events, 'windows': windows_of(events), 'early': early}
 
 
 BASES = [0x10000000, 0x20000000, 0x30000000]
 
 
-def gen_deck_case(rng, style):
+def gen_deck_case(rng, style, early=False):
     """histories through the deck layer: DeckMemory.read / write on decks with different bases (one read and one
     write may be outstanding at the same time), requests on other memories, replies delivered late / twice / out of
     order, refusals, disconnects"""
@@ -267,12 +271,14 @@ def gen_deck_case(rng, style):
         p = rng.choice([0.0, 0.05, 0.15])
         plan = [rng.randrange(1, 256) if rng.random() < p else 0 for _ in range(60)]
     rig = c06_mem.Rig(plan)
+    rig.early = early
     events, delivered = [], set()
     tok = [0]
 
     def do(ev):
         events.append(ev)
         rig.do(ev)
+        delivered.update(rig.early_done)
 
     for _ in range(rng.randrange(4, 26)):
         undel = [k for k in range(len(rig.log)) if k not in delivered]
@@ -312,7 +318,7 @@ def gen_deck_case(rng, style):
             break
         delivered.add(undel[0])
         do(['D', undel[0]])
-    return {'plan': plan, 'events': events, 'windows': windows_of(events)}
+    return {'plan': plan, 'events': events, 'windows': windows_of(events), 'early': early}
 
 
 def _gen_op(rng, ids, kind, depth, same=None):
@@ -394,11 +400,11 @@ def tie(ctx):
     cases = [dict(c) for c in corpus_cases()]
     n_gen = ctx.scale(700, 9000)
     for k in range(n_gen):
-        cases.append(gen_case(ctx.rng, 'clean' if k % 4 == 0 else 'faulty'))
+        cases.append(gen_case(ctx.rng, 'clean' if k % 4 == 0 else 'faulty', early=(k % 4 == 1)))
     # the deck layer: random histories + the systematic ones of the oracle
     n_deck = ctx.scale(250, 3000)
     for k in range(n_deck):
-        cases.append(gen_deck_case(ctx.rng, 'clean' if k % 4 == 0 else 'faulty'))
+        cases.append(gen_deck_case(ctx.rng, 'clean' if k % 4 == 0 else 'faulty', early=(k % 4 == 1)))
     for c in deck_systematic_cases():
         c = dict(c)
         c['windows'] = windows_of(c['events'])
@@ -436,7 +442,7 @@ def tie(ctx):
     # memory enumeration / refresh against a byte-exact device
     n_info = ctx.scale(220, 2500)
     for k in range(n_info):
-        cases.append(c06_infojudge.gen_info_case(ctx.rng, 'clean' if k % 3 == 0 else 'faulty'))
+        cases.append(c06_infojudge.gen_info_case(ctx.rng, 'clean' if k % 3 == 0 else 'faulty', early=(k % 4 == 1)))
     sysinfo = c06_infojudge.systematic_info_cases()
     cases += sysinfo if ctx.thorough else sysinfo[::3]
     # MemoryTester.new_data against tester_new_data TFixed (the per-byte loop and its completion)
@@ -458,7 +464,7 @@ def tie(ctx):
             continue
         if c.get('kind') == 'info':
             ints, rig = c06_infojudge.run_info_impl(c)
-            terms.append(c06_infojudge.info_case_term(c))
+            terms.append(c06_infojudge.info_case_term(c, rig.top))
             exp.append(ints)
             if rig.anomalies and len(anomalies) < 5:
                 anomalies.append({'what': 'send_packet called with arguments the protocol does not need', 'events': c['events'][:12],
@@ -587,6 +593,7 @@ class Judge:
         self.case = case
         self.rig = c06_mem.Rig(case.get('plan', []))
         self.rig.want_pre = True
+        self.rig.early = bool(case.get('early'))
         self.fail = None
         self.req = {}            # uid -> request as the caller knows it + what was observed for it
         self.rpend = {}          # id -> uid of the accepted read that is not notified yet
@@ -606,7 +613,8 @@ class Judge:
     def flag(self, cls, detail, expected=None, observed=None, k=None):
         if self.fail is None:
             evs = self.case['events'] if k is None else self.case['events'][:k + 1]
-            self.fail = {'class': cls, 'case': {'plan': self.case.get('plan', [])[:60], 'events': evs},
+            self.fail = {'class': cls, 'case': {'plan': self.case.get('plan', [])[:60], 'events': evs,
+                                                'early': bool(self.case.get('early'))},
                          'expected': expected, 'observed': observed, 'detail': detail}
 
     def image_of(self, i):
@@ -742,6 +750,7 @@ class Judge:
         self.in_x = ev[0] == 'X'
         self.x_write_phase = False
         rig.do(ev)
+        self.delivered.update(rig.early_done)
         if rig.locked():
             cls = 'lock_left_held'
             # a write acknowledgement (replayed or forged) for a memory whose queue is empty
@@ -755,10 +764,14 @@ class Judge:
         for item in rig.stream[self.seen:]:
             if item[0] == 's':
                 self.check_packet(k, item[1], item[2], item[3])
+            elif item[0] == 'early':
+                self.delivered.add(item[1])
             elif item[0] == 'op':
                 self.begin_op(k, item[1], item[2])
             elif item[0] == 'opret':
-                self.end_op(k, item[1], item[2], item[3])
+                # accepted? (an early reply may complete the request and its listener make another one before the
+                # call returns: the uid counter is not a reliable witness then)
+                self.end_op(k, item[1], item[2], (item[2] + 1 if item[4] else item[2]) if len(item) > 4 else item[3])
             elif item[0] == 'dop':
                 self.begin_deck_op(k, item[1], item[2])
             elif item[0] == 'dopret':
@@ -1003,7 +1016,7 @@ def _markers(body):
 
 
 def judge(case, finish=True):
-    c = {'plan': list(case.get('plan', [])), 'events': [list(e) for e in case['events']]}
+    c = {'plan': list(case.get('plan', [])), 'events': [list(e) for e in case['events']], 'early': bool(case.get('early'))}
     j = Judge(c)
     for k, ev in enumerate(list(c['events'])):
         j.step(k, ev)
@@ -1080,6 +1093,14 @@ def systematic_cases(deep):
     for (a1, a2) in ((25, 0), (0, 25)):
         evs = [['W', 1, a1, [7] * 25, False], ['D', 0], ['W', 1, a2, d60, False], ['D', 0], ['D', 1], ['D', 2], ['D', 3]]
         out.append({'plan': [], 'events': evs})
+    # EARLY replies: every reply to a packet sent by the caller's thread is dispatched before the call returns
+    for n in R_LENS[:9]:
+        out.append({'plan': [], 'early': True, 'events': [['R', 1, 3, n], ['R', 1, 3, n]] + [['D', k] for k in range(8)]})
+    for n in W_LENS[:9]:
+        d = [(5 * j + n) % 256 for j in range(n)]
+        out.append({'plan': [], 'early': True, 'events': [['W', 2, 3, d, False], ['W', 2, 3, d, True]] + [['D', k] for k in range(8)]})
+    out.append({'plan': [9], 'early': True, 'events': [['R', 1, 3, 45], ['R', 1, 3, 45], ['D', 1], ['D', 2], ['D', 3]]})
+    out.append({'plan': [9], 'early': True, 'events': [['W', 1, 3, d60, False], ['W', 1, 3, d60, False], ['D', 1], ['D', 2], ['D', 3]]})
     # interleaved memories
     evs = [['R', 1, 0, 50], ['W', 1, 0, list(range(60)), False], ['R', 2, 0, 50], ['W', 2, 7, list(range(40)), False]]
     evs += [['D', k] for k in (3, 2, 1, 0, 4, 5, 6, 7, 8, 9, 10)]
@@ -1226,11 +1247,11 @@ def oracle(ctx, deep=False):
     cases += c06_infojudge.systematic_info_cases()
     rng = ctx.rng
     for k in range(ctx.scale(250, 3000) * (3 if deep else 1)):
-        cases.append(c06_infojudge.gen_info_case(rng, 'clean' if k % 3 == 0 else 'faulty'))
+        cases.append(c06_infojudge.gen_info_case(rng, 'clean' if k % 3 == 0 else 'faulty', early=(k % 4 == 1)))
     for k in range(ctx.scale(200, 2500) * (3 if deep else 1)):
-        cases.append(gen_deck_case(rng, 'clean' if k % 3 == 0 else 'faulty'))
+        cases.append(gen_deck_case(rng, 'clean' if k % 3 == 0 else 'faulty', early=(k % 4 == 1)))
     for k in range(ctx.scale(500, 6000) * (3 if deep else 1)):
-        cases.append(gen_case(rng, 'clean' if k % 3 == 0 else 'faulty'))
+        cases.append(gen_case(rng, 'clean' if k % 3 == 0 else 'faulty', early=(k % 4 == 1)))
     keys = set()
     for c in cases:
         n += 1
@@ -1270,7 +1291,7 @@ def _shrink(case, cls):
 
     def fails(e, p):
         try:
-            f = judge({'plan': p, 'events': e}, finish=cls in ('request_never_completes', 'not_served_after_history'))
+            f = judge({'plan': p, 'events': e, 'early': case.get('early')}, finish=cls in ('request_never_completes', 'not_served_after_history'))
         except Exception:
             return False
         return f is not None and f['class'] == cls
@@ -1288,7 +1309,7 @@ def _shrink(case, cls):
             if fails(cand, plan):
                 evs = cand
                 changed = True
-    return {'plan': plan[:60], 'events': evs}
+    return {'plan': plan[:60], 'events': evs, 'early': bool(case.get('early'))}
 
 
 def replay(payload, ctx):
